@@ -23,6 +23,7 @@ fn users3() -> Vec<(usize, String, String)> {
 }
 
 pub fn bursts() -> Vec<Burst> {
+    // (C06 reuses the burst "kill-vs-reregistration" through `burst_part`)
     let mut v = vec![];
     let mk = |name: &str, cfg: Cfg, slots: usize, users: Vec<(usize, String, String)>, fresh: Vec<usize>, prelude: Vec<(usize, &str)>, lines: Vec<(usize, Vec<&str>)>| Burst {
         name: name.to_string(),
@@ -97,8 +98,34 @@ pub fn bursts() -> Vec<Burst> {
         vec![(0, vec!["OPER op oppw"]), (4, vec!["QUIT"]), (1, vec!["PRIVMSG #c :m1"])],
     ));
     v.push(mk("oper-vs-eof-vs-topic", base_cfg(), 5, users5(), vec![], vec![(0, "JOIN #c"), (1, "JOIN #c"), (2, "JOIN #c"), (3, "JOIN #c"), (4, "JOIN #c")], vec![(0, vec!["OPER op oppw"]), (4, vec!["QUIT :bye"]), (1, vec!["TOPIC #c :t1"])]));
+    // two members set the topic at the same time: every member ends up having seen the
+    // final topic last (own echo and relayed announcements are one stream per member)
+    v.push(mk("topic-vs-topic", base_cfg(), 3, users3(), vec![], chan3.clone(), vec![(0, vec!["TOPIC #c :from alice"]), (1, vec!["TOPIC #c :from bob"])]));
+    // KILL against a new connection registering under the victim's nickname: the victim's
+    // teardown must remove the victim, not whoever holds the nick by then
+    v.push(mk(
+        "kill-vs-reregistration",
+        base_cfg(),
+        4,
+        users3(),
+        vec![3],
+        vec![(0, "OPER op oppw"), (3, "USER nu 0 * :r")],
+        vec![(0, vec!["KILL bob :x"]), (3, vec!["NICK bob"])],
+    ));
     v.push(mk("quit-vs-invite", base_cfg(), 3, users3(), vec![], vec![(0, "JOIN #c"), (1, "JOIN #c")], vec![(0, vec!["INVITE carol #c"]), (2, vec!["QUIT"])]));
     v
+}
+
+/// One named burst as a part of another property's plan.
+pub fn burst_part(name: &str) -> PartResult {
+    match bursts().into_iter().find(|b| b.name == name) {
+        Some(b) => run_burst(b, None),
+        None => {
+            let mut r = PartResult::new(&format!("int:{}", name), "E-INT");
+            r.machinery = Some("no such burst".into());
+            r
+        }
+    }
 }
 
 fn run_burst(b: Burst, bound: Option<usize>) -> PartResult {
